@@ -18,7 +18,8 @@ import time
 
 TOOL_ID = 3
 _mon = sys.monitoring
-FIDDLE_DIR = os.path.realpath('/repo/fiddle') + os.sep
+from vf import common as _common
+FIDDLE_DIR = os.path.realpath(os.path.join(_common.REPO, 'fiddle')) + os.sep
 
 _active = None        # the Run in progress (module global: one run at a time)
 
